@@ -75,4 +75,18 @@ pub fn vx_range_incl_contains(lo: u8, hi: u8, x: &u8) -> (r: bool)
 //@|        offset + avail == payload@.len(), // O:ctrl.log_info.inv.inner
 //@|        apids@.len() <= _i, payload@.len() <= usize::MAX,
 //@ end
+// parse_ctrl_sw_version_payload: a 32-bit length and that many bytes of text
+#[verifier::external_body]
+pub fn vx_u32_from_be_slice4(s: &[u8]) -> (r: u32) requires s@.len() == 4 { unimplemented!() }
+#[verifier::external_body]
+pub fn vx_u32_from_le_slice4(s: &[u8]) -> (r: u32) requires s@.len() == 4 { unimplemented!() }
+//@ extract src/dlt/control_msgs.rs fn parse_ctrl_sw_version_payload
+//@   sub R3 `vx_u32_from_be_bytes(payload.get(0..4).unwrap().try_into().unwrap())` => `vx_u32_from_be_slice4(vx_slice_get(payload, 0, 4).unwrap())`
+//@   sub R3 `vx_u32_from_le_bytes(payload.get(0..4).unwrap().try_into().unwrap())` => `vx_u32_from_le_slice4(vx_slice_get(payload, 0, 4).unwrap())`
+//@   sub R11 `WINDOWS_1252.decode_without_bom_handling(` => `vx_w1252_decode(`
+//@   sub R11 `RE_NEW_LINE.replace_all(&s, " ")` => `vx_replace_newlines(&s)`
+//@   sub R11 `String::from(s2)` => `vx_string_from(s2)`
+//@   spec
+//@|    ensures r is Some ==> payload@.len() >= 4, // O:ctrl.sw_version (the announced length is compared with what is there before slicing)
+//@ end
 // ---- end of units/ctrlmsgs/part.rs ----
